@@ -463,12 +463,6 @@ fn read_pool(texts: &[&'static str], t: &Table, lk: LitKind) -> Vec<(&'static st
         .collect()
 }
 
-pub fn replay(case: &Value) -> i32 {
-    println!("history: {}", case["history"]);
-    println!("(re-run `verif check C10` to re-explore; the history above names every step)");
-    0
-}
-
 pub fn run(tier: Tier) -> i32 {
     let mut rep = Report::new("C10", tier);
     rep.rule = "explicit-state exploration of operator-application histories over pools of parsed expressions with overlapping and disjoint variable sets: (i) operate_unary/operate_binary by name on FlatEx (parsed and parse_wo_compile) and DeepEx with the symbolic data type and the universal table, and with a second operator factory holding the same operators in reverse table order used on the same thread (reference tree in lock-step, equality modulo AC); (ii) + - * / pow and neg on DeepEx over exact rationals incl. the neutral-element shortcuts, and by-name application on the flat form (exact equality on a rational grid incl. 0 and 1 wherever the unsimplified form is defined and no power has base zero with a non-positive exponent); distinct = unique structural dumps; non-trivial = at least one application".into();
